@@ -98,11 +98,26 @@ def runMd (j : Json) : R Json := do
   pure (obj [
     ("upwind", ofTrips (upwindTrip P nf)), ("dir", ofTrips (dirTrip P nf)), ("neu", ofTrips (neuTrip P nf)),
     ("interfaces", Json.arr io.toArray),
+    ("hyp", obj [("cons", Json.bool (consHypB P nf nc (arrFn Vl) (arrFn bv))), ("md", Json.bool (mdHypB M nc))]),
     ("steps", ofList ofRats (mdSteps M nc dt (arrFn Vl) (arrFn bv) nsteps cl))])
+
+def runDarcy (j : Json) : R Json := do
+  let nf ← fNat j "nf"
+  let incs ← fRatss j "inc"
+  let T ← incs.mapM parseInc
+  let normals ← fRatss j "normals"
+  let beta ← fRats j "beta"
+  let ap ← field j "ap" >>= jOpt (jList jRat)
+  match normals, beta with
+  | [nx, ny, nz], [bx, by', bz] =>
+    let apf := ap.map arrFn
+    pure (obj [("flux", ofRats ((List.range nf).map (darcyFlux T (arrFn nx) (arrFn ny) (arrFn nz) bx by' bz apf)))])
+  | _, _ => throw "bad normals/beta"
 
 def run (j : Json) : R Json := do
   let op ← fStr j "op"
   if op == "md" then runMd j else
+  if op == "darcy_flux" then runDarcy j else
   if op != "upwind" then throw s!"unknown op {op}" else
   let nf ← fNat j "nf"
   let nc ← fNat j "nc"
@@ -117,9 +132,15 @@ def run (j : Json) : R Json := do
   let Vl ← fRats j "V"
   let dt ← fRat j "dt"
   let nsteps ← fNat j "nsteps"
+  let bounds ← fRatss j "bounds"
   if flux.length != nf || isDir.length != nf || isNeu.length != nf || Vl.length != nc then throw "length mismatch" else
-  if bvs.length != k || cs.length != k then throw "component mismatch" else
+  if bvs.length != k || cs.length != k || bounds.length != k then throw "component mismatch" else
   let P : Pb := ⟨T, arrFn flux, boolFn isDir, boolFn isNeu⟩
+  let hyp := obj [
+    ("wf", Json.bool (wfB T)),
+    ("cons", ofList (fun bv => Json.bool (consHypB P nf nc (arrFn Vl) (arrFn bv))) bvs),
+    ("mp", ofList (fun (x : (List Rat × List Rat) × List Rat) =>
+        Json.bool (mpHypB P nc dt (arrFn Vl) (arrFn x.1.1) (arrFn x.1.2) (x.2.getD 0 0) (x.2.getD 1 0))) ((bvs.zip cs).zip bounds))]
   if anyErr P nf then pure (err "ValueError") else
   let up := kronTrip k (upwindTrip P nf)
   let dir := kronTrip k (dirTrip P nf)
@@ -134,6 +155,6 @@ def run (j : Json) : R Json := do
     ("shapes", ofList ofNats [[nf * k, nc * k], [nf * k, nf * k], [nf * k, nf * k]]),
     ("upwind", ofTrips up), ("dir", ofTrips dir), ("neu", ofTrips neu),
     ("steps", ofList (fun comps => ofRats (interleave nc comps)) steps),
-    ("assemble", asm)])
+    ("assemble", asm), ("hyp", hyp)])
 
 def main : IO Unit := runPure run
